@@ -107,6 +107,12 @@ type LoopSpec struct {
 	Decreases func(fx *FnExec, fr *Frame, st *State) *Term
 	Unroll    int
 	Bounded   bool
+	// OnEntry is called on first arrival at the loop head (before havoc), e.g. to check the state reached by the
+	// code before the loop against a specification.
+	OnEntry func(fx *FnExec, fr *Frame, st *State)
+	// OnBackEdge is called at every back edge with the state assumed at the loop head of this iteration
+	// (two-state step relation).
+	OnBackEdge func(fx *FnExec, head *State, headFr *Frame, fr *Frame, st *State)
 }
 
 type NamedTerm struct {
@@ -200,6 +206,7 @@ type FnExec struct {
 	Aborted    string // non-empty: reason (path cap, out of subset)
 	ordinals   map[ssa.Instruction]map[string]int
 	Entry      *EntryInfo
+	RetFrame   *Frame
 	EntryArgs  []Value
 	EntryState *State
 	InitMode   bool
@@ -207,11 +214,15 @@ type FnExec struct {
 	Inlined    map[string]bool
 	Applied    map[string]bool
 	// optional hooks
+	// OnJoin is called when the branches of a top-level If of the function under check have been joined
+	// (ifBlock is the block ending in the If); it may emit obligations and canonicalise the state.
+	OnJoin  func(fx *FnExec, fr *Frame, st *State, ifBlock *ssa.BasicBlock)
 	OnStore func(fx *FnExec, st *State, obj *Object, path Path, site string)
 	// loop write-set discovery mode
 	discoverLoop   map[*ssa.BasicBlock]bool
 	discoverHeader *ssa.BasicBlock
 	mute           bool
+	strAlloc       *Term
 }
 
 func (cx *Ctx) NewFnExec(fn *ssa.Function) *FnExec {
@@ -717,7 +728,7 @@ func (fx *FnExec) runFrom(fr *Frame, b *ssa.BasicBlock, start int, st *State, k 
 			if fx.Paths > fx.Cx.MaxPaths {
 				panic(abortExec{"path cap exceeded"})
 			}
-			J := ipdoms(fr.Fn)[b]
+			J := joinPoint(fr.Fn, b)
 			if J != nil && !fx.Cx.NoMerge && !fx.hasLoopSpec(fr.Fn, J) {
 				base := len(st.PC)
 				var results []mergeRes
@@ -749,6 +760,9 @@ func (fx *FnExec) runFrom(fr *Frame, b *ssa.BasicBlock, start int, st *State, k 
 							mf.stops[n-1].collect(ms, mf, results[0].prev)
 							return
 						}
+						if fx.OnJoin != nil && len(mf.stops) == 0 && mf.Parent == nil {
+							fx.OnJoin(fx, mf, ms, b)
+						}
 						mf.Visits[J]++
 						if mf.Visits[J] > fx.Cx.MaxVisits {
 							fx.Oblige(ms, fmt.Sprintf("%s%s#unwind[b%d]", fr.Prefix, FuncName(fr.Fn), J.Index), "unwind", False, "", "loop not fully unrolled within limit")
@@ -760,6 +774,9 @@ func (fx *FnExec) runFrom(fr *Frame, b *ssa.BasicBlock, start int, st *State, k 
 				}
 				for _, r := range results {
 					r.fr.stops = fr.stops
+					if fx.OnJoin != nil && len(r.fr.stops) == 0 && r.fr.Parent == nil {
+						fx.OnJoin(fx, r.fr, r.st, b)
+					}
 					fx.runBlock(r.fr, J, r.prev, r.st, k)
 				}
 				return
@@ -793,6 +810,7 @@ func (fx *FnExec) runFrom(fr *Frame, b *ssa.BasicBlock, start int, st *State, k 
 			}
 			if fr.Parent == nil {
 				fx.Returns++
+				fx.RetFrame = fr
 			}
 			k(st, r)
 			return
@@ -815,6 +833,9 @@ func (fx *FnExec) step(fr *Frame, st *State, in ssa.Instruction) {
 		o := fx.Cx.NewObj(fmt.Sprintf("%s.%s", fr.Fn.Name(), x.Comment), t, prov)
 		st.Heap[o] = fx.Cx.Zero(t)
 		fr.Env[x] = PtrV{Nil: False, Obj: o}
+		if x.Heap {
+			fx.AddAlloc(st, BV64(uint64(sizes.Sizeof(t))))
+		}
 	case *ssa.BinOp:
 		fr.Env[x] = fx.binop(fr, st, x)
 	case *ssa.UnOp:
@@ -934,6 +955,17 @@ func (fx *FnExec) step(fr *Frame, st *State, in ssa.Instruction) {
 	default:
 		panic(Unsupported{fmt.Sprintf("instruction %T: %s", in, in)})
 	}
+}
+
+var sizes = types.SizesFor("gc", "amd64")
+
+// AddAlloc adds n octets to the allocation ghost counter.
+func (fx *FnExec) AddAlloc(st *State, n *Term) {
+	cur, ok := st.Ghost["alloc"]
+	if !ok {
+		cur = BV64(0)
+	}
+	st.Ghost["alloc"] = Add(cur, n)
 }
 
 func (fx *FnExec) allocGhost(st *State, n *Term, et types.Type) {
@@ -1202,7 +1234,15 @@ func (fx *FnExec) strConcat(a, b StrV) StrV {
 	}
 	c := CopyC(base, BV64(0), a.C, a.Off, a.Len)
 	c = CopyC(c, a.Len, b.C, b.Off, b.Len)
+	fx.strAlloc = Add(fx.strAllocOr0(), Add(a.Len, b.Len))
 	return StrV{C: c, Off: BV64(0), Len: Add(a.Len, b.Len)}
+}
+
+func (fx *FnExec) strAllocOr0() *Term {
+	if fx.strAlloc == nil {
+		return BV64(0)
+	}
+	return fx.strAlloc
 }
 
 func (fx *FnExec) strEq(a, b StrV) *Term {
